@@ -806,9 +806,9 @@ func TestVerifC10Load(t *testing.T) {
 		}
 
 		parses, nullPaths := c10ParseYAML(plain)
-		if c10Known(c10KeyEnvEmptyList) {
-			if n := c10DropEmptyOptionalLists(env); n > 0 {
-				rec.Excluded(c10KeyEnvEmptyList)
+		if c10Known(c10KeyEnvPrefixNil) {
+			if n := c10DropStraySuffixKeys(env); n > 0 {
+				rec.Excluded(c10KeyEnvPrefixNil)
 			}
 		}
 		envOnNullPath := false
@@ -949,10 +949,9 @@ func TestVerifC10RegressShortEncryptedFile(t *testing.T) {
 	}
 }
 
-// c10KeyEnvEmptyList: an empty environment value for a parameter declared as pointer to a list (the deprecated
-// webrtcICEHostNAT1To1IPs / webrtcICEServers) makes the environment loader call Set on a nil pointer's target.
-const c10KeyEnvEmptyList = "c10-env-empty-optional-list"
-
+// found by this check, fixed by dbb62fd: an empty environment value for a parameter declared as pointer to a list
+// (the deprecated webrtcICEHostNAT1To1IPs / webrtcICEServers) made the environment loader call Set on a nil
+// pointer's target.
 // c10Known: listed as known by the driver, or (development / sensitivity runs) named in $VERIF_C10_ASSUME_KNOWN.
 func c10Known(key string) bool {
 	return kit.Known(key) || strings.Contains(os.Getenv("VERIF_C10_ASSUME_KNOWN"), key)
@@ -973,14 +972,60 @@ func c10OptionalListKeys() map[string]bool {
 	return out
 }
 
-// c10DropEmptyOptionalLists removes empty-valued assignments on such parameters (known finding
-// c10-env-empty-optional-list) and reports how many were removed.
-func c10DropEmptyOptionalLists(env map[string]string) int {
-	names := c10OptionalListKeys()
+// c10KeyEnvPrefixNil: an environment key that merely starts with the name of a pointer-typed parameter having a
+// custom environment unmarshaler makes the loader call UnmarshalEnv on the nil pointer.
+const c10KeyEnvPrefixNil = "c10-env-prefix-nil-unmarshaler"
+
+// c10UnmarshalerNames returns the upper-case names of the fields of rt whose pointer implements UnmarshalEnv;
+// onlyPointers restricts them to fields declared as pointers.
+func c10UnmarshalerNames(rt reflect.Type, onlyPointers bool) []string {
+	var out []string
+	for i := 0; i < rt.NumField(); i++ {
+		f := rt.Field(i)
+		n := cgJSONName(f)
+		if n == "" {
+			continue
+		}
+		ft := f.Type
+		isPtr := ft.Kind() == reflect.Pointer
+		if isPtr {
+			ft = ft.Elem()
+		}
+		if _, custom := reflect.New(ft).Interface().(interface{ UnmarshalEnv(string, string) error }); custom && (isPtr || !onlyPointers) {
+			out = append(out, strings.ToUpper(n))
+		}
+	}
+	return out
+}
+
+// c10DropStraySuffixKeys removes the assignments whose key extends the name of such a parameter (known finding
+// c10-env-prefix-nil-unmarshaler) and reports how many were removed.
+func c10DropStraySuffixKeys(env map[string]string) int {
+	global := c10UnmarshalerNames(reflect.TypeOf(Conf{}), true)
+	pd := c10UnmarshalerNames(reflect.TypeOf(Path{}), true)
+	inPath := c10UnmarshalerNames(reflect.TypeOf(Path{}), false) // optional values: every field is a pointer
 	n := 0
-	for k, v := range env {
-		_, name, ok := strings.Cut(k, "_")
-		if ok && v == "" && names[name] && (strings.HasPrefix(k, "MTX_") || strings.HasPrefix(k, "RTSP_")) {
+	for k := range env {
+		var rest string
+		var names []string
+		switch {
+		case strings.HasPrefix(k, "MTX_PATHDEFAULTS_"), strings.HasPrefix(k, "RTSP_PATHDEFAULTS_"):
+			rest, names = k[strings.Index(k, "_PATHDEFAULTS_")+len("_PATHDEFAULTS_"):], pd
+		case strings.HasPrefix(k, "MTX_PATHS_"), strings.HasPrefix(k, "RTSP_PATHS_"):
+			rest, names = k[strings.Index(k, "_PATHS_")+len("_PATHS_"):], inPath
+		case strings.HasPrefix(k, "MTX_"), strings.HasPrefix(k, "RTSP_"):
+			rest, names = k[strings.Index(k, "_")+1:], global
+		default:
+			continue
+		}
+		if strings.Contains(k, "_PATHS_") { // <MAPKEY>_<PARAMETER...>: the loader cuts the map key at the first '_'
+			_, rest, _ = strings.Cut(rest, "_")
+		}
+		drop := false
+		for _, name := range names {
+			drop = drop || (strings.HasPrefix(rest, name) && len(rest) > len(name))
+		}
+		if drop {
 			delete(env, k)
 			n++
 		}
@@ -988,10 +1033,10 @@ func c10DropEmptyOptionalLists(env map[string]string) int {
 	return n
 }
 
+// found by this check, fixed by dbb62fd: an empty environment value for a parameter declared as pointer to a list
+// (the deprecated webrtcICEHostNAT1To1IPs / webrtcICEServers) made the environment loader call Set on a nil
+// pointer's target.
 func TestVerifC10RegressEnvEmptyOptionalList(t *testing.T) {
-	if c10Known(c10KeyEnvEmptyList) {
-		t.Skip("listed as known finding " + c10KeyEnvEmptyList)
-	}
 	if len(c10OptionalListKeys()) == 0 {
 		t.Skip("no parameter is declared as pointer to a list any more")
 	}
@@ -1002,6 +1047,25 @@ func TestVerifC10RegressEnvEmptyOptionalList(t *testing.T) {
 				if v := c10Judge(c, err, p, st); v != "" {
 					t.Errorf("file %q with %s%s= : %s", doc, prefix, name, c10ClipS(v, 700))
 				}
+			}
+		}
+	}
+}
+
+// open finding c10-env-prefix-nil-unmarshaler (see c10KeyEnvPrefixNil)
+func TestVerifC10RegressEnvPrefixNilUnmarshaler(t *testing.T) {
+	if c10Known(c10KeyEnvPrefixNil) {
+		t.Skip("listed as known finding " + c10KeyEnvPrefixNil)
+	}
+	for _, env := range []map[string]string{
+		{"MTX_RECORDDELETEAFTER_": "1"}, {"MTX_PROTOCOLS_0": "tcp"}, {"MTX_ENCRYPTIONX": "no"}, {"RTSP_AUTHMETHODS_0": "basic"}, {"MTX_RECORDFORMAT2": "fmp4"},
+		{"MTX_PATHDEFAULTS_PUBLISHIPS_0": "1.2.3.4"}, {"MTX_PATHDEFAULTS_PUBLISHUSER_": "x"}, {"MTX_PATHDEFAULTS_SOURCEPROTOCOL_X": "udp"},
+		{"MTX_PATHS_CAM_RECORDFORMATX": "fmp4"}, {"MTX_PATHS_CAM_RECORDDELETEAFTER_": "1d"}, {"MTX_PATHS_CAM_RTSPTRANSPORT_0": "tcp"},
+	} {
+		for _, doc := range []string{"", "paths:\n  cam:\n    record: no\n"} {
+			c, err, p, st := c10LoadBytes(t, []byte(doc), env)
+			if v := c10Judge(c, err, p, st); v != "" {
+				t.Errorf("file %q with %v: %s", doc, env, c10ClipS(v, 500))
 			}
 		}
 	}
